@@ -318,29 +318,60 @@ func (c *Ctx) sha256Len(ab *ssa.Function) {
 // sameDataChecked (K1): the Data handed to the duplicate check and the Data
 // appended are the same SSA value.
 func (c *Ctx) sameDataChecked(ab *ssa.Function) {
-	var checked, stored []ssa.Value
-	instrsOf(ab, func(i ssa.Instruction) {
-		st, ok := i.(*ssa.Store)
-		if !ok || ir.FieldID(st.Addr) != sigPkg+".SignatureData.Data" {
-			return
-		}
-		root := ir.RootOf(st.Addr)
-		// does this struct flow to Exists or to the appended slice?
-		toExists := false
-		if a, isA := root.(*ssa.Alloc); isA {
-			for _, r := range *a.Referrers() {
-				if call, ok := r.(*ssa.Call); ok && ir.CallID(call) == sigPkg+".SignatureList.Exists" {
-					toExists = true
+	// Data of a local SignatureData struct
+	dataOf := func(a *ssa.Alloc) []ssa.Value {
+		var out []ssa.Value
+		for _, r := range *a.Referrers() {
+			if fa, ok := r.(*ssa.FieldAddr); ok && ir.FieldID(fa) == sigPkg+".SignatureData.Data" {
+				for _, rr := range *fa.Referrers() {
+					if st, ok := rr.(*ssa.Store); ok && st.Addr == ssa.Value(fa) {
+						out = append(out, st.Val)
+					}
 				}
 			}
 		}
-		if toExists {
-			checked = append(checked, st.Val)
-		} else {
-			stored = append(stored, st.Val)
+		return out
+	}
+	var checked, stored []ssa.Value
+	instrsOf(ab, func(i ssa.Instruction) {
+		call, ok := i.(*ssa.Call)
+		if !ok {
+			return
+		}
+		switch ir.CallID(call) {
+		case sigPkg + ".SignatureList.Exists":
+			if a, isA := ir.RootOf(call.Call.Args[1]).(*ssa.Alloc); isA {
+				checked = append(checked, dataOf(a)...)
+			}
+		case "builtin.append":
+			// only the append whose result becomes the list's entries
+			isEntries := false
+			for _, r := range *call.Referrers() {
+				if st, ok := r.(*ssa.Store); ok && ir.FieldID(st.Addr) == fSignatures {
+					isEntries = true
+				}
+			}
+			if !isEntries || len(call.Call.Args) < 2 {
+				return
+			}
+			elems, ok := variadicElems(call.Call.Args[1])
+			if !ok {
+				return
+			}
+			for _, e := range elems {
+				if ld, isLd := e.(*ssa.UnOp); isLd && ld.Op == token.MUL {
+					if a, isA := ld.X.(*ssa.Alloc); isA {
+						stored = append(stored, dataOf(a)...)
+					}
+				}
+			}
 		}
 	})
-	ok, det := len(checked) > 0 && len(stored) > 0, fmt.Sprintf("found %d checked and %d stored Data values", len(checked), len(stored))
+	if len(checked) == 0 || len(stored) == 0 {
+		c.R.Infof("K1.same", name(ab), "checked==stored", c.Pos(ab.Pos()), fmt.Sprintf("not decided for this shape: found %d checked and %d stored Data values built as local SignatureData literals", len(checked), len(stored)))
+		return
+	}
+	ok, det := true, ""
 	for _, a := range checked {
 		for _, b := range stored {
 			if a != b {
@@ -542,6 +573,30 @@ func (c *Ctx) ruleSizeEquations(prefix string) {
 			old := "*" + base + ".ListSize"
 			sz := "*" + base + ".Size"
 			ok2 := a.K == 0 && len(a.T) == 2 && a.T[old] == 1 && (a.T[sz] == 1 || a.T[sz] == -1)
+			if !ok2 && a.T[old] == 1 {
+				// the list's Size was assigned just before on this path: the change may be
+				// written with the assigned value instead of re-reading the field
+				var last *ssa.Store
+				instrsOf(fn, func(j ssa.Instruction) {
+					s2, isSt := j.(*ssa.Store)
+					if !isSt || s2 == st || ir.FieldID(s2.Addr) != fSize {
+						return
+					}
+					if fa, isFA := s2.Addr.(*ssa.FieldAddr); !isFA || ir.AccessPath(fa.X) != base {
+						return
+					}
+					if s2.Block() == st.Block() && precedes(s2, st) || s2.Block() != st.Block() && s2.Block().Dominates(st.Block()) {
+						last = s2
+					}
+				})
+				if last != nil {
+					delta := a.clone()
+					delete(delta.T, old)
+					if nv := affineOf(last.Val, 0); delta.equal(nv) || delta.equal(nv.scale(-1)) {
+						ok2 = true
+					}
+				}
+			}
 			det := ""
 			if !ok2 {
 				det = "new ListSize is " + a.String() + ", want old ListSize ± Size of the same list (ListSize = 28 + n·Size must keep holding)"
